@@ -3,7 +3,8 @@ code-blind expectation of what a correct DNS client does with them."""
 from gen import hx, small_label, gen_text
 
 CLIENTS = ["std", "tokio", "asyncstd", "smol"]
-JUNK = ["empty", "short", "hdr11", "rand", "wrongid", "swapid", "name1", "wtype", "wclass", "qd0", "qd2", "truncq", "hdronly", "selfptr"]
+JUNK = ["empty", "short", "hdr11", "rand", "wrongid", "swapid", "name1", "wtype", "wclass", "qd0", "qd2", "truncq", "hdronly", "selfptr",
+        "tcname1", "tcwrongid", "tcqd0"]
 MATCHING = ["resp", "Jcase", "Jquery"]          # accepted by the RFC filter (id + single question, case-insensitive)
 
 
@@ -114,7 +115,9 @@ def expect_query(sc, q):
         return {"kind": "err:BufferTooShort(512)", "sends": 0, "tcp": 0, "t": 0}
     life = sc.life
     buf = sc.buf if q.kind == "raw" else 65535
-    if sc.strategy == "tcp":
+    if sc.strategy.endswith("+noudp") and not sc.strategy.startswith("tcp"):
+        return {"kind": "err:IoError(ConnectionRefused)", "sends": None, "tcp": 0, "t": 0}
+    if sc.strategy.startswith("tcp"):
         k, body, t = tcp_expect(sc, q, 0, buf)
         if t >= life and k == "ok":
             k, body, t = "err:Timeout", None, life
@@ -137,7 +140,7 @@ def expect_query(sc, q):
     for (ta, what, i) in arrivals:
         if ta >= life:
             break
-        if what in ("resp", "resptc", "Jcase", "Jquery") or what.startswith("big"):
+        if what in ("resp", "resptc", "resp2", "resplie", "Jcase", "Jquery") or what.startswith("big"):
             acc = (ta, what)
             break
     if acc is None:
@@ -151,6 +154,13 @@ def expect_query(sc, q):
         return {"kind": k, "payload": body, "t": min(t, life), "sends": nsent, "tcp": 1}
     if what == "resp":
         body = response_bytes(q.name, q.qtype, q.qclass)
+    elif what in ("resp2", "resplie"):
+        body = bytearray(response_bytes(q.name, q.qtype, q.qclass))
+        qe = 12 + len(qname_wire(q.name)) + 4
+        if what == "resp2":
+            body += body[qe:]
+        body[7] = 2
+        body = bytes(body)
     elif what == "resptc":
         body = response_bytes(q.name, q.qtype, q.qclass, tc=True)
     elif what == "Jcase":
@@ -159,7 +169,7 @@ def expect_query(sc, q):
         body = None   # the echoed query: checked against what was sent
     else:
         body = response_bytes(q.name, q.qtype, q.qclass, pad=int(what[3:]))[:buf]
-    return {"kind": "ok", "payload": body, "t": ta, "sends": nsent, "tcp": 0, "echo": what == "Jquery"}
+    return {"kind": "ok", "payload": body, "t": ta, "sends": nsent, "tcp": 0, "echo": what == "Jquery", "what": what}
 
 
 def rand_name(rng):
@@ -203,6 +213,9 @@ def gen_scenario(rng, focus, client=None):
             t += 10
             items.append((t + 12, "J" + rng.choice(JUNK)))
         qs = [mk(udp=[items])]
+    elif focus == "strategy" and rng.random() < 0.15:
+        strategy = rng.choice(["udp", "notcp", "notcp", "tcp"]) + "+noudp"
+        qs = [mk(udp=[[(10, "resp")]], tcp=(0, "full"))]
     elif focus == "strategy":
         strategy = rng.choice(["udp", "tcp", "notcp"])
         pre = [(8 * i, "J" + rng.choice(JUNK)) for i in range(rng.choice([0, 0, 2, 4]))]
@@ -249,6 +262,17 @@ def gen_scenario(rng, focus, client=None):
             qs = [mk(tcp=(0, rng.choice(["stall:0", "stall:1", "stall:5", "drip:60", "drip:15", "full"])))]
         if qt is None and strategy == "udp":
             qs[0].udp = qs[0].udp[:1] if qs[0].udp and rng.random() < 0.5 else []
+    elif focus == "history" and rng.random() < 0.25:
+        # a longer response first, then a shorter one that announces more records than it carries:
+        # stale bytes of the first must not be parsed as part of the second
+        nm1 = rand_name(rng) + b"." + rand_name(rng)
+        nm2 = small_label(rng)
+        ty = rng.choice([1, 28])
+        qs = [mk(kind="rr%d" % ty, name=nm1, qtype=ty, udp=[[(15, "resp2")]]),
+              mk(kind="rr%d" % ty, name=nm2, qtype=ty, udp=[[(15, "resplie")]]),
+              mk(kind="raw", name=nm2, qtype=ty, udp=[[(15, "resplie")]])]
+        qt, life = 250, 600
+        buf = 1232
     else:  # history
         qs = []
         n = rng.choice([2, 3, 4, 6])
